@@ -381,3 +381,35 @@ PROPS["C13"] = dict(
     assumptions=["dishonest Ed25519 public keys are out of scope of the property's conversion clause"],
     trusted_base=TB_COMMON,
 )
+
+# ---------------------------------------------------------------------------------------------- C09
+
+
+def _c09_floors(m, tier):
+    out = need(m, "alg", ["argon2i", "argon2id"], "algorithms")
+    out += need(m, "t", range(1, 7), "pass counts")
+    out += need(m, "m_mod4", range(4), "memory sizes modulo the segment granularity")
+    out += need(m, "m_kib", [8, 9, 11, 15, 17, 33, 255, 516, 1000, 1024, 2044, 4099], "memory sizes")
+    out += need(m, "outlen_mod32", range(32), "output length residues mod 32")
+    out += need(m, "outlen", [16, 63, 64, 65, 95, 96, 97, 127, 128, 129, 255, 256, 257, 1024, 1100], "output lengths at the H' boundaries")
+    out += need(m, "salt_len", range(8, 65), "salt lengths")
+    out += need(m, "rejected_parameter", ["outlen", "saltlen", "opslimit", "memlimit"], "rejected parameters")
+    out += need(m, "reference", ["crypto_pwhash+argon2_core", "argon2_core_only"], "references")
+    return out
+
+
+PROPS["C09"] = dict(
+    level="exploration",
+    technique="runtime differential monitoring: crypto_pwhash / PwHash outputs compared with libsodium's crypto_pwhash and with its internal Argon2 core (argon2i/id_hash_raw) over a parameter grid + seeded random sets; independent RFC 9106 Python Argon2 offline on the low-cost sample; rejection of out-of-range parameters",
+    level_text="Argon2i and Argon2id are run for every output length 16..=200 plus {255,256,257,1023,1024,1025,1100}, password lengths 0..=300, pass counts 1..=6, 22 memory sizes from 8 KiB to 4 MiB including "
+               "non-multiples of 4 KiB and sizes whose segment length is not a multiple of 128, salts of 8..=64 bytes, and seeded random combinations; each output equals libsodium's. "
+               "Out-of-range output/salt lengths and costs must be rejected; PwHash::verify must accept the right and reject altered passwords. The parameter space is sampled on a grid, hence exploration.",
+    level_note="libsodium's public function refuses Argon2i with t<3 and salts != 16 bytes; those cells use libsodium's internal Argon2 core (same code path its public function calls) and the independent Python model (m<=64 KiB, t<=3).",
+    runs=lambda tier: [dict(build="st", monitor="c09")],
+    offline=offline.check_c09,
+    models=["argon2"],
+    floors=_c09_floors,
+    rule="a case is (algorithm, t, memory bytes, output length, password, salt); distinct by grid cell / sweep index / random draw",
+    assumptions=["parallelism is fixed to 1 lane by the API (as in libsodium)"],
+    trusted_base=TB_COMMON + ["libsodium's internal argon2i_hash_raw / argon2id_hash_raw symbols linked from the static archive"],
+)
